@@ -11,11 +11,25 @@ pub struct Utf8Accum {
 }
 
 impl Utf8Accum {
+    /// Some first octets restrict range of the second octet
+    /// (see Table 3-7 "Well-Formed UTF-8 Byte Sequences" of Unicode standard)
+    fn is_valid_second(first: u8, second: u8) -> bool {
+        match first {
+            0xE0 => second >= 0xA0,
+            0xED => second <= 0x9F,
+            0xF0 => second >= 0x90,
+            0xF4 => second <= 0x8F,
+            _ => true,
+        }
+    }
+
     pub fn push_byte(&mut self, byte: u8) -> Option<&str> {
         // Plain and stupid utf-8 validation
         // Bytes are supposed to be human input so it's okay to be not blazing fast
 
-        if byte >= 0xF8 {
+        if byte >= 0xF5 {
+            // such octets never appear in valid utf-8
+            self.expected = 0;
             return None;
         } else if byte >= 0xF0 {
             // this is first octet of 4-byte value
@@ -27,13 +41,22 @@ impl Utf8Accum {
             self.buffer[0] = byte;
             self.partial = 1;
             self.expected = 2;
-        } else if byte >= 0xC0 {
+        } else if byte >= 0xC2 {
             // this is first octet of 2-byte value
             self.buffer[0] = byte;
             self.partial = 1;
             self.expected = 1;
+        } else if byte >= 0xC0 {
+            // 0xC0 and 0xC1 could only start overlong encoding
+            self.expected = 0;
         } else if byte >= 0x80 {
-            if self.expected > 0 {
+            if self.expected > 0
+                && self.partial == 1
+                && !Self::is_valid_second(self.buffer[0], byte)
+            {
+                // overlong encoding, surrogate or value above U+10FFFF
+                self.expected = 0;
+            } else if self.expected > 0 {
                 // this is one of other octets of multi-byte value
                 self.buffer[self.partial as usize] = byte;
                 self.partial += 1;
